@@ -116,7 +116,40 @@ func VerifC12BadHash(kind int, recorded string) int {
 	return 0
 }
 
+// VerifC12Truncated: a recorded hash that is the true digest cut short by `cut` bytes is never accepted.
+// (search: look for content, starting from the given one, whose digest ends in `cut` zero bytes - used when a
+// counterexample found with uninterpreted digests is replayed against the real ones.)
+func VerifC12Truncated(kind int, content string, cut int, search bool) int {
+	alg := []string{"sha256", "sha512", "sha256", "sha512"}[kind]
+	if search {
+		for i := 0; i < 1<<20; i++ {
+			c := content + string(rune('a'+i%26)) + string(rune('a'+(i/26)%26)) + string(rune('a'+(i/676)%26)) + string(rune('a'+(i/17576)%26))
+			d := verifDigestHex(alg, c)
+			if strings.HasSuffix(d, strings.Repeat("00", cut)) {
+				content = c
+				break
+			}
+		}
+	}
+	full := verifDigestHex(alg, content)
+	recorded := full[:len(full)-2*cut]
+	e, _, ok := verifEntry(kind, recorded, "")
+	if !ok {
+		return 0
+	}
+	v, err := e.Verifier()
+	if err != nil {
+		return 0 // refusing the entry outright is fine too
+	}
+	v.Write([]byte(content))
+	if v.Close() == nil {
+		return 1
+	}
+	return 0
+}
+
 func init() {
+	verifFuncs["VerifC12Truncated"] = VerifC12Truncated
 	verifFuncs["VerifC12Verify"] = VerifC12Verify
 	verifFuncs["VerifC12BadHash"] = VerifC12BadHash
 }
